@@ -39,7 +39,8 @@ ANCHORS = (
 )
 RULE = (
     "grid case = one generator (round robin over 23) x one parameter tuple drawn from a bounded grid (n <= 12, probabilities 0 and 1 "
-    "over-represented, degree/size sequences, block sizes incl. empty blocks, graphs on <= 7 nodes) x 5 seeds (one of them seed=None with the "
+    "over-represented and passed as float / numpy scalar / int / array; for the skip-sampling generators one case in five is sparse / large: n up to 500 with "
+    "probabilities 1e-18 .. 1e-3 such that a handful of edges is expected, degree-type parametrisations, 300-6000 node Chung-Lu / DCSBM sequences; degree/size sequences, block sizes incl. empty blocks, graphs on <= 7 nodes) x 5 seeds (one of them seed=None with the "
     "global generators seeded from the case rng); inject case = one skip-sampling generator x parameters x one scripted `geometric`; decode case "
     "= one (n, m) / block-size vector with all indices. distinct_nontrivial = distinct (generator, parameters, seed, produced edge multiset) "
     "with at least one edge or a boundary probability / rejected parameter, plus distinct decode pairs"
@@ -52,6 +53,10 @@ ASSUMPTIONS = [
     "uniform_HSBM with p[block] == 1: demanded is the *set* of all size-m member sets of the block product (multiplicities are not demanded)",
     "downward closure is demanded for faces of size >= 2 (the class does not store singleton faces)",
     "star_clique is compared with the closed form of its docstring up to isomorphism (labels are not demanded); sunflower by the sunflower definition",
+    "inject cases on large ranges (n up to 400, up to 1e9 indices) script at most 25 indices incl. the first and the last; the decodes of these distinct indices must be "
+    "valid and pairwise distinct (sampled extension of the exhaustive decode cases)",
+    "argument shapes the docstrings exclude (scalar ps without order, ps outside [0, 1], negative order) are only driven to reach the branches of _check_input_args; no verdict "
+    "depends on them; the classes of the argument of `geometric` are counted by a harness-side pass-through wrapper",
     "injected draws: expected edges are computed with the repository's own decoders, which the decode cases verify exhaustively to be bijections for every "
     "(n, m) the inject cases use; if a private name or the module-level name `geometric` is absent the sub-check counts itself under unobserved:*",
 ]
@@ -346,8 +351,8 @@ def sparse_hppm(rng):
     return n, m, np_typed(rng, k), eps, rho
 
 
-def large_bipartite(rng, groups=False):
-    n1 = rng.choice([300, 1000, 3000, 6000]) + rng.randint(0, 50)
+def large_bipartite(rng, groups=False, sizes=(300, 1000, 3000, 6000)):
+    n1 = rng.choice(sizes) + rng.randint(0, 50)
     n2 = max(50, int(n1 * rng.choice([0.5, 1.0])))
     k1 = {i: rng.randint(1, 3) for i in range(n1)}
     k2 = {j: rng.randint(1, 3) for j in range(n2)}
@@ -1433,8 +1438,9 @@ def floors(tier):
     for fn in ("fast_random_hypergraph", "uniform_erdos_renyi_hypergraph", "uniform_HSBM", "uniform_HPPM"):
         f[f"sparse-nonempty:{fn}"] = 100  # sparse / large regime: tiny probabilities, n up to 500, at least one edge produced
     if PROBED_GEOMETRIC:  # value classes of the argument of `geometric` that were actually drawn with
-        for k in ("p=0", "p=1", "0<p<1e-12", "1e-12<=p<1e-4", "1e-4<=p<1e-2", "1e-2<=p<1", "numpy-scalar", "->inf"):
+        for k in ("p=0", "p=1", "1e-12<=p<1e-4", "1e-4<=p<1e-2", "1e-2<=p<1", "numpy-scalar", "->inf"):
             f[f"geometric:{k}"] = 100
+        f["geometric:0<p<1e-12"] = 15  # one draw per call: log(1 - p) == 0
     if "geometric" in U.__dict__ and "geometric" in R.__dict__ and all(decoder(w) is not None for w in DECODE_NAMES):
         for w in DECODE_NAMES:
             f[f"decode-sampled:{w}"] = 50
